@@ -710,7 +710,7 @@ impl Check for C15 {
         for (what, floor) in [("pdr @ get-unsat-assumptions", tier.pick(28, 280)), ("pdr @ check", tier.pick(100, 1000)), ("bmc-ind @ check", tier.pick(28, 280)), ("bmc @ get-value", tier.pick(28, 280)), ("direct @ get-unsat-assumptions", 14)] {
             m.floor(&format!("fault runs at response points of kind `{what}`"), m.h("fault_runs_by_job_and_point", what), floor);
         }
-        m.floor("runs with Unknown returned by the solver context at one query", m.c("unknown_answer_runs"), tier.pick(150, 3000));
+        m.floor("runs with Unknown returned by the solver context at one query", m.c("unknown_answer_runs"), tier.pick(150, 1500));
         m.floor("fault runs at commands that bear no response", m.c("command_fault_runs"), tier.pick(60, 1500));
         m.extra.insert("exhaustive_over_positions_and_kinds_per_job".into(), json!(true));
     }
